@@ -191,6 +191,12 @@ Definition known_cls (a : agent) : bool :=
   forallb (fun kv => is_net (fst kv) || is_ost (fst kv) || is_attr (fst kv)) (a_blocks a).
 Definition opts_named (a : agent) : bool :=
   forallb (fun o => match find_optcfg (a_reg a) (o_name o) with Some _ => true | None => false end) (a_opts a).
+(* networks whose encoder the registry's share hooks hide; an agent saved in its shared state exposes no encoder
+   parameters for them (hypothesis of load_save_visible, evaluated by K on every saved agent) *)
+Definition hook_targets (h : hook) : list name := match h with HShare _ others => others | _ => [] end.
+Definition share_targets (r : registry) : list name := flat_map hook_targets (r_hooks r).
+Definition share_savedb (a : agent) : bool :=
+  forallb (fun o => match blk a (o, cEnc) with [] => true | _ => false end) (share_targets (a_reg a)).
 Definition savable (a : agent) : bool :=
   keys_nodupb (map fst (a_blocks a)) && nodupb (agent_locs a) && known_cls a.
 
